@@ -10,8 +10,13 @@
 //!   * truncated at EVERY byte offset   -> enumerated;
 //!   * one flipped bit at sampled offsets, reader error at sampled offsets, plaintext
 //!     truncated at sampled offsets and recompressed (a well-formed gzip of a cut file).
-//! Err => dump (with ids) + count/label/type views equal the pre-state.  Ok on a modified
-//! stream is counted, not judged.
+//! Err => dump (with ids) + count/label/type views equal the pre-state.
+//! Ok on a truncated stream / after a reader error / on a bit flip that leaves the stream
+//! undecodable or decoding to the same text: the original snapshot is known, so the store
+//! must show exactly what the unmodified import produces (pre-state + all of S); Ok with
+//! less is a violation of its own.  Ok on a recompressed plaintext truncation: the store
+//! must show pre-state + the records wholly before the cut (a valid shorter snapshot when
+//! cut at a record boundary).
 
 use crate::kit::core::*;
 use crate::kit::dump::{dump, Dump, GEdge, GNode};
@@ -234,6 +239,77 @@ fn ok_import_diff(before: &Dump, s: &Dump, after: &Dump, dedup: bool) -> (Vec<(S
     (out, m)
 }
 
+/// `Ok` from an import whose input was cut short, failed under the reader or was damaged,
+/// while the snapshot it was made from is known: "succeeds, adding exactly the snapshot's
+/// nodes and relationships" — the result must be what the unmodified import gives.
+/// None = it is; otherwise (class, detail).
+fn faulty_ok_class(before: &Dump, s: &Dump, after: &Dump, dedup: bool) -> Option<(&'static str, String)> {
+    let (diffs, _) = ok_import_diff(before, s, after, dedup);
+    if diffs.is_empty() {
+        return None;
+    }
+    let (exp, _) = expected_after(before, s, after, dedup);
+    let class = if after == before {
+        "ok_with_nothing_imported"
+    } else if after.nodes.len() <= exp.nodes.len() && after.edges.len() <= exp.edges.len() && (after.nodes.len() < exp.nodes.len() || after.edges.len() < exp.edges.len()) {
+        "ok_with_partial_content"
+    } else {
+        "ok_with_wrong_content"
+    };
+    let what: Vec<String> = diffs.iter().map(|d| format!("{}: {}", d.0, d.1)).collect();
+    Some((
+        class,
+        format!(
+            "import returned Ok; store has {} nodes / {} relationships, was {} / {} before, the snapshot holds {} / {} ({})",
+            after.nodes.len(),
+            after.edges.len(),
+            before.nodes.len(),
+            before.edges.len(),
+            s.nodes.len(),
+            s.edges.len(),
+            what.join("; ")
+        ),
+    ))
+}
+
+/// What a snapshot file cut after `at` bytes of its text still holds: the part of S whose
+/// records are wholly inside the prefix (record ids in the file are S's own node and
+/// relationship ids; nodes precede relationships, so a kept relationship has both ends).
+/// Second result: the cut falls inside a record (some but not all of its bytes are there).
+fn prefix_snapshot(text: &str, at: usize, s: &Dump) -> (Dump, bool) {
+    let mut out = Dump::default();
+    let mut inside = false;
+    let mut start = 0usize;
+    for (i, line) in text.split('\n').enumerate() {
+        let end = start + line.len();
+        if start < at && at < end {
+            inside = true;
+        }
+        if i > 0 && !line.is_empty() && end <= at {
+            if let Ok(v) = serde_json::from_str::<Value>(line) {
+                let id = v["id"].as_u64().unwrap_or(0);
+                match v["t"].as_str() {
+                    Some("n") => {
+                        if let Some(n) = s.nodes.get(&id) {
+                            out.nodes.insert(id, n.clone());
+                        }
+                    }
+                    Some("e") => {
+                        if let Some(e) = s.edges.get(&id) {
+                            if out.nodes.contains_key(&e.src) && out.nodes.contains_key(&e.dst) {
+                                out.edges.insert(id, e.clone());
+                            }
+                        }
+                    }
+                    _ => {}
+                }
+            }
+        }
+        start = end + 1;
+    }
+    (out, inside)
+}
+
 struct Sub {
     tk: usize,
     dd: bool,
@@ -266,7 +342,7 @@ impl Scenario for C13 {
         }
     }
     fn rule(&self) -> &'static str {
-        "case = a source history S (2-6 nodes with 1-2 labels out of 3, an optional unique `key` value out of 6, safe property values; 1-6 relationships; API and stub routes) and a target history T (0-5 nodes with keys from the same domain, relationships, early deletions so ids are reused, optional compaction). The snapshot of S (<= ~700 bytes) is imported into a fresh T under 6 configurations {empty, matching, non-matching target} x {no dedup keys, dedup on `key`}; per configuration: the unmodified stream, EVERY truncation offset, 48 sampled single-bit flips, 24 sampled reader-error offsets, 24 sampled plaintext truncations (recompressed). One sub-execution = build T, snapshot its dump and views, import, compare. Non-trivial = S has >=2 nodes and >=1 relationship and at least one node was merged in the (matching, dedup) configuration. Distinct = hash of (canonical S, canonical T, key kind)."
+        "case = a source history S (2-6 nodes with 1-2 labels out of 3, an optional unique `key` value out of 6, safe property values; 1-6 relationships; API and stub routes) and a target history T (0-5 nodes with keys from the same domain, relationships, early deletions so ids are reused, optional compaction). The snapshot of S (<= ~700 bytes) is imported into a fresh T under 6 configurations {empty, matching, non-matching target} x {no dedup keys, dedup on `key`}; per configuration: the unmodified stream, EVERY truncation offset, 48 sampled single-bit flips, 24 sampled reader-error offsets, 24 sampled plaintext truncations (recompressed). One sub-execution = build T, snapshot its dump and views, import, compare (Err: store unchanged; Ok on the unmodified stream, on a truncated stream, after a reader error or on a bit flip: store = pre-state + all of S; Ok on a recompressed plaintext truncation: store = pre-state + the records of S wholly before the cut). Non-trivial = S has >=2 nodes and >=1 relationship and at least one node was merged in the (matching, dedup) configuration. Distinct = hash of (canonical S, canonical T, key kind)."
     }
     fn real_components(&self) -> Vec<&'static str> {
         vec![
@@ -555,7 +631,65 @@ impl Scenario for C13 {
                         }
                     } else {
                         o.probe(&format!("ok_on_modified_stream/{}", sub.kind));
-                        outcome_class = "ok-modified".into();
+                        // Which modified streams have a known "the snapshot"?
+                        //  trunc / rerr: the bytes that were delivered are a prefix of the
+                        //    unmodified stream, so the snapshot is S.
+                        //  flip: a reference decode of the damaged bytes either fails (not a
+                        //    valid stream at all: Ok cannot be the import of some other
+                        //    snapshot), or gives the same text (S), or — CRC collision, never
+                        //    seen — another text (then only counted).
+                        //  ptrunc: a well-formed gzip of a cut file.  Cut at a record boundary it
+                        //    is a valid shorter snapshot, whose content is the records before
+                        //    the cut; cut inside a record (the importer skips a line too short
+                        //    to show its record type) the snapshot's nodes and relationships are
+                        //    still those of the whole records — a record that is not there
+                        //    cannot be "the snapshot's".  Judged against that content, under
+                        //    separate signatures for the two cases.
+                        let mut expect: &Dump = &sdump;
+                        let cut: (Dump, bool);
+                        let (judged, area) = match sub.kind {
+                            "ptrunc" => {
+                                cut = prefix_snapshot(&text, at, &sdump);
+                                expect = &cut.0;
+                                (true, if cut.1 { "cut_record_import" } else { "shorter_snapshot_import" })
+                            }
+                            "trunc" => (true, "truncated_import"),
+                            "rerr" => (true, "reader_error_import"),
+                            "flip" => {
+                                let mut damaged = snap.clone();
+                                damaged[at] ^= 1 << sub.bit;
+                                match gunzip(&damaged) {
+                                    Ok(t) if t != text.as_bytes() => {
+                                        o.probe("flip_decodes_to_other_text");
+                                        (false, "")
+                                    }
+                                    Ok(_) => {
+                                        o.probe("flip_leaves_text_intact");
+                                        (true, "bit_flip_import")
+                                    }
+                                    Err(_) => (true, "bit_flip_import"),
+                                }
+                            }
+                            _ => (false, ""),
+                        };
+                        if judged {
+                            let after = dump(&g);
+                            match faulty_ok_class(&before, expect, &after, sub.dd) {
+                                None => {
+                                    if sub.kind == "ptrunc" {
+                                        o.probe(&format!("ok_{area}_{}", if expect.nodes.is_empty() { "header_only" } else if expect.edges.is_empty() { "nodes_only" } else { "nodes_and_relationships" }));
+                                    }
+                                    o.probe(&format!("ok_on_modified_stream_with_full_content/{}", sub.kind));
+                                    outcome_class = "ok-modified-full".into();
+                                }
+                                Some((class, detail)) => {
+                                    outcome_class = format!("ok-modified:{class}");
+                                    add(&mut o, format!("C13/{area}/{ddn}/{class}"), format!("[{cfgname}; {} at byte {at} of {len}] {detail}", sub.kind));
+                                }
+                            }
+                        } else {
+                            outcome_class = "ok-modified".into();
+                        }
                     }
                 }
             }
